@@ -5,7 +5,7 @@ defining data of every object is compared with the observation predicted by the 
 (which encodes, per constructor, which arguments are deep-copied and which are aliased)."""
 import random, copy
 from fractions import Fraction as F
-from .. import core, gen
+from .. import core, gen, exact as E
 from ..gen import fr
 
 KIND = {'P': 0, 'V': 1, 'L': 2, 'S': 3, 'H': 4, 'PL': 5, 'G': 6, 'B': 7}
@@ -385,6 +385,54 @@ def one_history(impl, R):
     return dict(ops=h.ops, log=h.log, problems=h.problems, obs=obs)
 
 
+def twin_move_catalogue(impl):
+    """fixed histories 'query - hash-preserving move - same query': every moved coordinate goes from -1 to -2 (CPython: hash(-1) ==
+    hash(-2)), so the 10-digit hash of the receiver is the same before and after; anything keyed by hash / == of the operands and
+    filled by the first query must not answer the second one.  Answers are compared with freshly built operands in a process
+    that has run nothing else."""
+    import json
+    from .. import pristine as _pr, compare as _cmp
+    V = E.V
+    recs = []
+    for ax in range(3):
+        def pt(a, b, c=-1):
+            q = [a, b]
+            q.insert(ax, c)
+            return V(*q)
+        mv = tuple(F(-1) if t == ax else F(0) for t in range(3))
+        dirv = tuple(F(1) if t == ax else F(0) for t in range(3))
+        movers = [('P', pt(0, 0)), ('S', pt(0, 0), pt(1, 0)), ('G', [pt(0, 0), pt(1, 0), pt(1, 1), pt(0, 1)]), ('G', [pt(0, 0), pt(1, 0), pt(0, 1)])]
+        partners = [('PL', pt(0, 0), dirv), ('P', pt(0, 0)), ('S', pt(0, 0), pt(1, 1)), ('L', pt(0, 0, 0), dirv), ('L', pt(0, 0), pt(1, 1, 0)),
+                    ('G', [pt(0, 0), pt(1, 0), pt(1, 1), pt(0, 1)]), ('H', pt(0, 0, 1), tuple(-c for c in dirv)),
+                    ('B', [[pt(a, b, c) for (a, b, c) in f] for f in (
+                        [(0, 0, -1), (1, 0, -1), (1, 1, -1), (0, 1, -1)], [(0, 0, 1), (1, 0, 1), (1, 1, 1), (0, 1, 1)],
+                        [(0, 0, -1), (1, 0, -1), (1, 0, 1), (0, 0, 1)], [(0, 1, -1), (1, 1, -1), (1, 1, 1), (0, 1, 1)],
+                        [(0, 0, -1), (0, 1, -1), (0, 1, 1), (0, 0, 1)], [(1, 0, -1), (1, 1, -1), (1, 1, 1), (1, 0, 1)])])]
+        for A in movers:
+            for B in partners:
+                qs = {'intersection': lambda a, b: impl.intersection(a, b), 'distance': lambda a, b: impl.distance(a, b), 'in': lambda a, b: a in b, '==': lambda a, b: a == b}
+                for swapped in (False, True):
+                    log, problems = [], []
+                    try:
+                        a, b = impl.build(A), impl.build(B)
+                        for q, f in qs.items():
+                            impl.call((lambda: f(b, a)) if swapped else (lambda: f(a, b)))
+                        a.move(impl.Vc(mv))
+                        log = ['%s = %s' % ('a', gen.tok(A)[:60]), 'b = %s' % gen.tok(B)[:60], 'queries(%s)' % ('b, a' if swapped else 'a, b'), 'a.move(%s)' % t3(mv)]
+                        for q, f in qs.items():
+                            x, y = (b, a) if swapped else (a, b)
+                            da, db = impl.describe(x), impl.describe(y)
+                            here = json.loads(json.dumps(_pr.canon(impl, _cmp, impl.call(lambda: f(x, y)))))
+                            there = Pristine.ask(q, da, db)
+                            if not _pr.same_answer(here, there) and not (isinstance(there, list) and there and there[0] == 'pristine-error'):
+                                problems.append('after the hash-preserving move %s the answer of %s(%s), asked before the move as well, is %r; freshly built operands in a process that has run nothing else give %r' % (
+                                    log[-1], q, 'b, a' if swapped else 'a, b', here, there))
+                    except Exception as e:
+                        problems.append('twin-move catalogue raised %s: %s' % (type(e).__name__, str(e)[:80]))
+                    recs.append(dict(log=log + ['same queries again'], problems=problems))
+    return recs
+
+
 def work(args):
     seed, n, idx = args
     from .. import impl
@@ -437,6 +485,16 @@ def run(ctx, scale=1):
         if problems:
             ctx.stats['DISAGREE'] += 1
             ctx.violation(key[:400], 'history [%s]: %s' % (key[:600], '; '.join(problems[:2])), dict(log=r['log'], ops=r['ops'], problems=problems))
+        else:
+            ctx.stats['agree'] += 1
+    from .. import impl as _impl
+    for r in twin_move_catalogue(_impl):
+        key = 'twin-move: ' + ' ; '.join(r['log'])
+        ctx.count(key)
+        ctx.dist['fixed query / hash-preserving move / query history'] += 1
+        if r['problems']:
+            ctx.stats['DISAGREE'] += 1
+            ctx.violation(key[:400], 'history [%s]: %s' % (key[:600], '; '.join(r['problems'][:2])), dict(log=r['log'], ops=[], problems=r['problems']))
         else:
             ctx.stats['agree'] += 1
     for r in recs[:3]:
